@@ -80,6 +80,15 @@ def _analyse_expr(ctx, body, e, params, upmap, res, depth):
         if name.endswith("Ord::cmp"):
             _cmp_key(ctx, body, e, params, upmap, res)
             return
+        if name.endswith("Iterator::cmp") and len(e[2]) == 2:
+            # a.iter().cmp(b.iter()): lexicographic comparison of the two sequences, element by element with Ord::cmp
+            pl = _param_proj(e[2][0], params, upmap)
+            pr = _param_proj(e[2][1], params, upmap)
+            if pl is None or pr is None or pl[0] == pr[0] or pl[1] != pr[1]:
+                res["malformed"].append("Iterator::cmp does not compare the same projection of the two arguments: %s / %s" % (pl, pr))
+                return
+            res["keys"].append((pl[1] + "[*]", "Asc" if pl[0] == 1 else "Desc"))
+            return
         if name.endswith("PartialOrd::partial_cmp"):
             res["malformed"].append("partial_cmp is not a total order")
             return
